@@ -332,7 +332,7 @@ def shard(tier, seed, n):
 
 def run(tier, seed):
     t0 = time.time()
-    total = 3200 if tier == 'quick' else 30000
+    total = 6400 if tier == 'quick' else 60000
     jobs = [dict(tier=tier, seed=0, n=None)] + [dict(tier=tier, seed=s, n=total // common.NPROC)
                                                   for s in common.shard_seeds(seed, common.NPROC)]
     stats = common.run_shards(__name__, 'shard', jobs)
